@@ -389,6 +389,9 @@ var _ = pr.AutoF
 //@   props C13
 //@   modifies anything
 //@   unclaimed call-*-pre1 "preconditions of geometry readers and break classifiers on boxes under layout (resolved margins, validated break values, non-nil context): established by earlier layout steps, not tracked through the box tree"
+// a cell starts at the left edge of its leftmost column: its first column in a left-to-right table, its LAST
+// spanned column in a right-to-left one (column positions decrease with the column index there)
+//@   call BorderWidth#1 assert[cell-starts-at-its-leftmost-column] cell.PositionX == table.ColumnPositions[ite(table.Style.GetDirection() == "ltr", cell.GridX, cell.GridX + cell.Colspan - 1)] && cell.PositionY == row.PositionY
 //@   loop 3 invariant width == borderSpacingX*real(cell.Colspan-1) - bordersPlusPadding + sum(spannedWidths, 0, rangeindex+1)
 //@   loop 3 exit[span-covers-columns] width + bordersPlusPadding == borderSpacingX*real(cell.Colspan-1) + sum(spannedWidths, 0, len(spannedWidths))
 
@@ -519,3 +522,13 @@ func vBreakLineOrphansWidows() (int, []string) {
 //@   call SetJustification#1 assert arg1 == justificationSpacing
 //@   call addWordSpacing#1 assert[advance-threaded] arg1 == child && arg2 == justificationSpacing && arg3 == xAdvance
 //@   call Translate#1 assert[atomic-shifted] arg1 == box_ && arg2 == xAdvance && arg3 == 0
+
+// CSS Text 3 §4.1.2: a sequence of collapsible spaces at the end of a line is removed: white-space normal,
+// nowrap and pre-line collapse, pre / pre-wrap / break-spaces preserve. The function leaves the trailing
+// spaces alone only when the last box is not text or preserves its spaces.
+//@ func removeLastWhitespace
+//@   props C11
+//@   modifies anything
+//@   unclaimed call-*-pre* "box accessors on a laid-out line"
+//@   return 2 ensures[spaces-kept-only-when-preserved] !ok || !(ws == "normal" || ws == "nowrap" || ws == "pre-line")
+//@   call TrimRight#1 assert[only-spaces] arg1 == ' '
